@@ -231,7 +231,11 @@ def run_shard(args):
             except Violation:
                 record_failure()
             except Exception as e:  # hypothesis errors (health checks, flaky): harness problems
-                if ctx.last_failure is not None and "Flaky" not in type(e).__name__:
+                if ctx.last_failure is not None:
+                    # includes Hypothesis' Flaky errors: the recorded case DID produce a real diff at least once; a
+                    # library whose outcome varies between runs of one input and sometimes violates is violating
+                    if "Flaky" in type(e).__name__:
+                        ctx.last_failure[1].append({"b": "note:outcome_varies_between_runs"})
                     record_failure()
                 else:
                     ctx.harness_error = "".join(traceback.format_exception(type(e), e, e.__traceback__))[-4000:]
